@@ -567,6 +567,9 @@ func (w *worker) compactKey(key []byte, rawKey []byte, rev uint64) error {
 	if err != nil {
 		w.metricCli.EmitCounter("compact.err", 1)
 		w.updateSkippedRawKey(rawKey, rev, err)
+		// an unconditional delete compares nothing: whatever made it fail (e.g. a write conflict reported
+		// as ErrCASFailed), the newer versions and the tombstone of this key must not be deleted either
+		w.lastCompactFailedRawKey = rawKey
 	}
 	return err
 }
